@@ -19,6 +19,10 @@ type connStatus struct {
 	*sync.RWMutex
 	cond    *sync.Cond
 	current connStatusValue
+	// reconnects counts the transitions into connStatusReconnecting. Stream watchers compare it
+	// with the value they saw when they started, so that an outage whose redial has already
+	// completed (status Connected again) is still noticed.
+	reconnects uint64
 }
 
 func newConnState() *connStatus {
@@ -65,8 +69,15 @@ func (e *connStatus) CompareAndSwapNot(old, new connStatusValue) (swapped bool) 
 	return true
 }
 
+func (e *connStatus) ReconnectsWithoutLock() uint64 {
+	return e.reconnects
+}
+
 func (e *connStatus) SwapWithoutLock(state connStatusValue) (old connStatusValue) {
 	old = e.current
+	if state == connStatusReconnecting && old != connStatusReconnecting {
+		e.reconnects++
+	}
 	e.current = state
 	e.cond.Broadcast()
 	return
